@@ -753,6 +753,13 @@ pub fn generate(rng: &mut Rng, o: &GenOpts, name: &str) -> Doc {
                         targets = vec![d[g.rng.below(d.len())].id.clone()];
                     }
                 }
+                // sometimes the state's own history child (default entry then goes through the
+                // history's default transition or the recorded value)
+                if !is_root && g.rng.chance(1, 6) {
+                    if let Some(h) = n.children.iter().find(|c| c.is_history()) {
+                        targets = vec![h.id.clone()];
+                    }
+                }
                 let as_element = !is_root && choice >= 2;
                 let body = if as_element && dm != Dm::Null {
                     vec![Stmt::Mark(format!("i:{}", n.id), vec![])]
